@@ -7,6 +7,7 @@ package p15
 
 import (
 	"testing"
+	"time"
 
 	"github.com/zenon-network/go-zenon/common/types"
 	"github.com/zenon-network/go-zenon/protocol"
@@ -17,7 +18,7 @@ import (
 func TestC15Regress(t *testing.T) {
 	pbt.CheckOnce(t, "C15", func(c *pbt.C) {
 		sh := world()
-		s := &session{c: c, sh: sh, validSet: map[uint64]bool{}, poolOK: map[types.Hash]bool{}, goodBlk: map[types.Hash]bool{}}
+		s := &session{c: c, sh: sh, validSet: map[uint64]bool{}, poolOK: map[types.Hash]bool{}, goodBlk: map[types.Hash]bool{}, t0: time.Now()}
 		s.onA, s.node, s.k, s.tip, s.policy = true, sh.a, sh.height, sh.height, "silent"
 		s.k0 = s.k
 		s.heightOf = map[types.Hash]uint64{}
